@@ -1702,4 +1702,189 @@ theorem directRefsNth_sub (x : RuleId) : ∀ (n : Nat) (vs : List Val) (w : Val)
     exact ⟨by simp [Val.subvaluesL, this.1], this.2⟩
 end
 
+/-! ### paths are projections: whatever a path returns is a sub-value of the value it was run on
+(no shape assumption) -/
+
+theorem Val.mem_subvaluesL {k : Val} : ∀ {kids : List Val}, k ∈ kids → ∀ w, w ∈ k.subvalues → w ∈ Val.subvaluesL kids
+  | [], h, _, _ => by cases h
+  | k' :: kids, h, w, hw => by
+    simp only [Val.subvaluesL, List.mem_append]
+    rcases List.mem_cons.mp h with rfl | h
+    · exact Or.inl hw
+    · exact Or.inr (Val.mem_subvaluesL h w hw)
+
+theorem Val.subvalues_kid {t : Tag} {kids : List Val} {k : Val} (hk : k ∈ kids) (w : Val) (hw : w ∈ k.subvalues) :
+    w ∈ (Val.mk t kids).subvalues := by
+  simp only [Val.subvalues, List.mem_cons]
+  exact Or.inr (Val.mem_subvaluesL hk w hw)
+
+theorem optWrap_flatten {flat : Bool} {r r' : GVal} (h : optWrap flat r = some r') : r'.flatten = r.flatten := by
+  unfold optWrap at h
+  split at h
+  · split at h
+    · injection h with h; subst h; rfl
+    · injection h with h; subst h; rfl
+    · cases h
+  · injection h with h; subst h; rfl
+
+theorem mapOpt_projects {f : Val → Option GVal}
+    (H : ∀ v gv, f v = some gv → ∀ w, w ∈ gv.flatten → w ∈ v.subvalues) :
+    ∀ (kids : List Val) (rs : List GVal), mapOpt (evalMatched f) kids = some rs →
+      ∀ w, w ∈ GVal.flattenL rs → w ∈ Val.subvaluesL kids
+  | [], rs, h, w, hw => by
+    simp only [mapOpt] at h; injection h with h; subst h; simp [GVal.flattenL] at hw
+  | kid :: kids, rs, h, w, hw => by
+    simp only [mapOpt] at h
+    cases h1 : evalMatched f kid with
+    | none => simp [h1] at h
+    | some r =>
+      cases h2 : mapOpt (evalMatched f) kids with
+      | none => simp [h1, h2] at h
+      | some rs' =>
+        simp only [h1, h2] at h; injection h with h; subst h
+        simp only [GVal.flattenL, List.mem_append] at hw
+        simp only [Val.subvaluesL, List.mem_append]
+        rcases hw with hw | hw
+        · left
+          unfold evalMatched at h1
+          cases kid with
+          | mk t ks =>
+            cases t <;> simp only [Val.matched?] at h1 <;> try (cases h1)
+            next n =>
+              cases hk : ks[n]? with
+              | none => simp [hk] at h1
+              | some k =>
+                simp only [hk] at h1
+                exact Val.subvalues_kid (List.mem_of_getElem? hk) w (H _ _ h1 w hw)
+        · exact Or.inr (mapOpt_projects H kids rs' h2 w hw)
+
+mutual
+theorem evalGetter_projects : ∀ (t : GNode) (v : Val) (gv : GVal), evalGetter t v = some gv →
+    ∀ w, w ∈ gv.flatten → w ∈ v.subvalues
+  | .rule _, v, gv, h, w, hw => by
+    simp only [evalGetter] at h; injection h with h; subst h
+    simp only [GVal.flatten, List.mem_singleton] at hw; subst hw
+    exact Val.mem_subvalues_self _
+  | .content g, v, gv, h, w, hw => by
+    simp only [evalGetter] at h
+    cases hk : v.contentKid? with
+    | none => simp [hk] at h
+    | some k =>
+      simp only [hk] at h
+      have := evalGetter_projects g k gv h w hw
+      unfold Val.contentKid? at hk
+      split at hk
+      · injection hk with hk; subst hk; exact Val.subvalues_kid (List.mem_singleton.mpr rfl) w this
+      · injection hk with hk; subst hk; exact Val.subvalues_kid (List.mem_singleton.mpr rfl) w this
+      · cases hk
+  | .sequenceI i g, v, gv, h, w, hw => by
+    simp only [evalGetter] at h
+    cases hk : v.seqKid? i with
+    | none => simp [hk] at h
+    | some k =>
+      simp only [hk] at h
+      have := evalGetter_projects g k gv h w hw
+      unfold Val.seqKid? at hk
+      split at hk
+      · next kids =>
+        cases hkid : kids[i]? with
+        | none => simp [hkid] at hk
+        | some kid =>
+          simp only [hkid] at hk
+          cases kid with
+          | mk t ks =>
+            cases t <;> simp only [Val.matched?] at hk <;> try (cases hk)
+            next n =>
+              exact Val.subvalues_kid (List.mem_of_getElem? hkid) w
+                (Val.subvalues_kid (List.mem_of_getElem? hk) w this)
+      · cases hk
+  | .choiceI i flat g, v, gv, h, w, hw => by
+    simp only [evalGetter] at h
+    cases hk : v.choiceSel? i with
+    | none => simp [hk] at h
+    | some o =>
+      cases o with
+      | none => simp only [hk] at h; injection h with h; subst h; simp [GVal.flatten] at hw
+      | some k =>
+        simp only [hk] at h
+        cases hr : evalGetter g k with
+        | none => simp [hr] at h
+        | some r =>
+          simp only [hr] at h
+          rw [optWrap_flatten h] at hw
+          have := evalGetter_projects g k r hr w hw
+          unfold Val.choiceSel? at hk
+          split at hk
+          · split at hk
+            · split at hk
+              · injection hk with hk; injection hk with hk; subst hk
+                exact Val.subvalues_kid (List.mem_singleton.mpr rfl) w this
+              · injection hk with hk; cases hk
+            · cases hk
+          · cases hk
+  | .optional flat g, v, gv, h, w, hw => by
+    simp only [evalGetter] at h
+    cases hk : v.optSel? with
+    | none => simp [hk] at h
+    | some o =>
+      cases o with
+      | none => simp only [hk] at h; injection h with h; subst h; simp [GVal.flatten] at hw
+      | some k =>
+        simp only [hk] at h
+        cases hr : evalGetter g k with
+        | none => simp [hr] at h
+        | some r =>
+          simp only [hr] at h
+          rw [optWrap_flatten h] at hw
+          have := evalGetter_projects g k r hr w hw
+          unfold Val.optSel? at hk
+          split at hk
+          · injection hk with hk; cases hk
+          · injection hk with hk; injection hk with hk; subst hk
+            exact Val.subvalues_kid (List.mem_singleton.mpr rfl) w this
+          · cases hk
+  | .contents g, v, gv, h, w, hw => by
+    simp only [evalGetter] at h
+    cases hk : v.repKids? with
+    | none => simp [hk] at h
+    | some kids =>
+      simp only [hk] at h
+      cases hm : mapOpt (evalMatched (evalGetter g)) kids with
+      | none => simp [hm] at h
+      | some rs =>
+        simp only [hm] at h; injection h with h; subst h
+        simp only [GVal.flatten] at hw
+        have := mapOpt_projects (evalGetter_projects g) kids rs hm w hw
+        unfold Val.repKids? at hk
+        split at hk
+        · injection hk with hk; subst hk
+          simp only [Val.subvalues, List.mem_cons]; exact Or.inr this
+        · cases hk
+  | .tuple gs, v, gv, h, w, hw => by
+    simp only [evalGetter] at h
+    cases hm : evalGetters gs v with
+    | none => simp [hm] at h
+    | some rs =>
+      simp only [hm] at h; injection h with h; subst h
+      simp only [GVal.flatten] at hw
+      exact evalGetters_projects gs v rs hm w hw
+theorem evalGetters_projects : ∀ (ts : List GNode) (v : Val) (rs : List GVal), evalGetters ts v = some rs →
+    ∀ w, w ∈ GVal.flattenL rs → w ∈ v.subvalues
+  | [], v, rs, h, w, hw => by
+    simp only [evalGetters] at h; injection h with h; subst h; simp [GVal.flattenL] at hw
+  | t :: ts, v, rs, h, w, hw => by
+    simp only [evalGetters] at h
+    cases h1 : evalGetter t v with
+    | none => simp [h1] at h
+    | some r =>
+      cases h2 : evalGetters ts v with
+      | none => simp [h1, h2] at h
+      | some rs' =>
+        simp only [h1, h2] at h; injection h with h; subst h
+        simp only [GVal.flattenL, List.mem_append] at hw
+        rcases hw with hw | hw
+        · exact evalGetter_projects t v r h1 w hw
+        · exact evalGetters_projects ts v rs' h2 w hw
+end
+
 end PestTyped
